@@ -468,3 +468,95 @@ def _hc_order():
         return ok and _run(burst_case(*case)) is not None
     finally:
         Processes.received_async = real
+
+
+# ---------------------------------------------------------------------------------------------------------------------
+# the same for the legacy (API version 4) syntax, which has its own dispatcher: `neighbor <selector> <command>`, commands
+# without selector for every neighbor; and the commands which change something other than the RIB (OPERATIONAL messages
+# queued on the neighbor): a command answered done HAS been executed, on the neighbors the selector names and only there
+OP = 'operational asm afi ipv4 safi unicast advisory "hello"'
+COMMANDS_V4 = [
+    ('announce route 10.1.1.0/24 next-hop 192.0.2.1', 'done', {(N1, '+', '10.1.1.0/24'), (N2, '+', '10.1.1.0/24')}),
+    ('neighbor 127.0.0.1 announce route 10.1.2.0/24 next-hop 192.0.2.1', 'done', {(N1, '+', '10.1.2.0/24')}),
+    ('neighbor 127.0.0.2 announce route 10.1.3.0/24 next-hop 192.0.2.1 med 5', 'done', {(N2, '+', '10.1.3.0/24')}),
+    ('bogus command', 'error', set()),
+    ('neighbor 127.0.0.9 announce route 10.1.5.0/24 next-hop 192.0.2.1', 'error', set()),
+    ('announce route 10.1.6.0/24', 'error', set()),
+    (f'announce {OP}', 'done', {(N1, 'op', 'ASM'), (N2, 'op', 'ASM')}),
+    (f'neighbor 127.0.0.1 announce {OP}', 'done', {(N1, 'op', 'ASM')}),
+    (f'neighbor 127.0.0.2 announce {OP}', 'done', {(N2, 'op', 'ASM')}),
+]
+TWO_NEIGHBORS_OP = TWO_NEIGHBORS.replace('family { ipv4 unicast; }', 'family { ipv4 unicast; }\n    capability { operational enable; }')
+
+
+async def burst_case_v4(indices, lines_per_read):
+    from exabgp.environment import getenv
+
+    global TWO_NEIGHBORS
+    saved_conf, saved_version = TWO_NEIGHBORS, getenv().api.version
+    TWO_NEIGHBORS = TWO_NEIGHBORS_OP
+    getenv().api.version = 4
+    try:
+        w = _Api()
+    finally:
+        TWO_NEIGHBORS = saved_conf
+    cmds = [COMMANDS_V4[i] for i in indices]
+    inp = {'api_version': 4, 'commands': [c for c, _e, _x in cmds], 'lines_per_read': lines_per_read}
+    try:
+        for k in range(0, len(cmds), lines_per_read):
+            w.deliver(''.join(c + '\n' for c, _e, _x in cmds[k : k + lines_per_read]).encode())
+            for _ in range(2 * lines_per_read + 2):
+                await w.iterate()
+        for _ in range(40):
+            if w.idle():
+                break
+            await w.iterate()
+        got = [t for t in (terminal(l) for l in w.replies()) if t]
+        want = [e for _c, e, _x in cmds]
+        if got != want:
+            return {'what': f'API version 4: replies {got} for commands expecting {want}', 'input': inp}
+        have = w.ribs()
+        for name, peer in w.reactor._peers.items():
+            addr = str(peer.neighbor.session.peer_address)
+            for m in peer.neighbor.messages:
+                have.setdefault(addr, set()).add(('op', m.name))
+        want_eff = {N1: set(), N2: set()}
+        for _c, _e, eff in cmds:
+            for nb, sign, what in eff:
+                want_eff[nb].add((sign, what))
+        for nb in (N1, N2):
+            extra = have.get(nb, set()) - want_eff[nb]
+            missing = want_eff[nb] - have.get(nb, set())
+            if extra:
+                return {'what': f'API version 4: neighbor {nb} was changed by a command which did not select it or was refused: {sorted(extra)}', 'input': inp}
+            if missing:
+                return {'what': f'API version 4: a command was answered done and not executed on neighbor {nb}: missing {sorted(missing)}', 'input': inp}
+        return None
+    finally:
+        getenv().api.version = saved_version
+        w.close()
+
+
+@bounded('C14', 'command-bursts-v4-syntax')
+def command_bursts_v4(tier, seed):
+    rnd = random.Random(seed + 4)
+    n = len(COMMANDS_V4)
+    cases = [((a,), 1) for a in range(n)]
+    pairs = [(a, b) for a in range(n) for b in range(n) if a != b]
+    if tier == 'quick':
+        rnd.shuffle(pairs)
+        pairs = pairs[:24]
+    cases += [(p, 2) for p in pairs]
+    fails, evals = [], 0
+    for idx, per in cases:
+        evals += 1
+        f = _run(burst_case_v4(idx, per))
+        if f:
+            fails.append(f)
+    return {'evaluations': evals, 'distinct_nontrivial': evals, 'bound': f'API version 4 syntax: each of {n} commands alone and {"24 sampled" if tier == "quick" else "all"} ordered pairs coalesced in one read (route commands without selector / with `neighbor <ip>`, unknown, selector matching nobody, incomplete route, OPERATIONAL advisory without selector and per neighbor); two neighbors; replies in order and effects (Adj-RIB-Out, queued OPERATIONAL messages) exactly those of the accepted commands', 'rule': 'one case = (command sequence, lines per read)', 'samples': [{'commands': [COMMANDS_V4[7][0]]}], 'failures': fails}
+
+
+@replayer('C14', 'command-bursts-v4-syntax')
+def _replay_bursts_v4(f):
+    idx = tuple([c for c, _e, _x in COMMANDS_V4].index(c) for c in f['input']['commands'])
+    return _run(burst_case_v4(idx, f['input']['lines_per_read'])) is None
